@@ -41,10 +41,27 @@ func (c *Ctx) ruleM4() {
 		if f == nil || f.Blocks == nil {
 			continue
 		}
+		isRead := func(call ssa.CallInstruction) bool {
+			return strings.HasSuffix(calleeFull(call), "go-ipfs-log/io.ReadCBOR")
+		}
 		var reads []ssa.Value
 		eachCall(f, func(call ssa.CallInstruction) {
-			if strings.HasSuffix(calleeFull(call), "go-ipfs-log/io.ReadCBOR") && call.Value() != nil {
+			if isRead(call) && call.Value() != nil {
 				reads = append(reads, call.Value())
+				return
+			}
+			// a same-package "read and decode into" helper: what it is given to fill is what was read
+			if h := call.Common().StaticCallee(); h != nil && h.Blocks != nil && h.Pkg == f.Pkg && c.reachesStatic(h, isRead, 0) {
+				for _, a := range call.Common().Args {
+					if _, isPtr := a.Type().Underlying().(*types.Pointer); isPtr {
+						reads = append(reads, strip(a))
+					}
+					if mi, ok := a.(*ssa.MakeInterface); ok {
+						if _, isPtr := mi.X.Type().Underlying().(*types.Pointer); isPtr {
+							reads = append(reads, mi.X)
+						}
+					}
+				}
 			}
 		})
 		if len(reads) == 0 {
